@@ -34,48 +34,84 @@ class FakeEvent(object):
         return True
 
 
-class Server(object):
-    """pages: list of row lists; page k (k < last) is returned with paging state b'S<k>'.
-    The server answers by the paging state CARRIED by the request (like a real coordinator)."""
+FAIL = 'F'
 
-    def __init__(self, pages, eager, state_of=None):
-        self.pages = pages
+
+def script_pages(script):
+    return [x for x in script if x != FAIL]
+
+
+def expected_requests(script):
+    """the paging state every request must carry when a failed request is simply repeated (model: expected_reqs None)"""
+    out, cur, k = [], None, 0
+    for item in script:
+        out.append(cur)
+        if item != FAIL:
+            cur = k
+            k += 1
+    return out
+
+
+class Server(object):
+    """script: list of items; an item is a list of rows (a page) or FAIL (the request arriving at that point ends in a
+    read timeout that the default RetryPolicy rethrows to the application).  Page k (k < last) is returned with paging
+    state b'S<k>'.  The server answers by the paging state CARRIED by the request (like a real coordinator): the n-th
+    request carrying state c gets the n-th item scripted after the page that returned c."""
+
+    def __init__(self, script, eager, state_of=None):
+        self.script = script
+        self.pages = script_pages(script)
         self.eager = eager
         self.sent = []          # carried paging_state of every message sent, in order
         self.pending = []       # (callback, carried state)
         self.bogus = []         # requests with a state the server never issued / after the last page
         self.state_of = state_of or (lambda k: ('S%d' % k).encode())
+        self.groups = {}        # carried-state key (None | page index) -> items answering successive requests
+        key, k = None, 0
+        for item in script:
+            self.groups.setdefault(key, []).append(item if item == FAIL else k)
+            if item != FAIL:
+                key = k
+                k += 1
+        self.seen = {}
 
     def state_bytes(self, k):
         return self.state_of(k) if k < len(self.pages) - 1 else None
 
-    def page_for(self, carried):
+    def key_for(self, carried):
         if carried is None:
-            return 0
+            return None
         for k in range(len(self.pages) - 1):
             if self.state_of(k) == carried:
-                return k + 1
-        return None
+                return k
+        return 'bogus'
 
     def response(self, carried):
-        from cassandra.protocol import ResultMessage, RESULT_KIND_ROWS
-        k = self.page_for(carried)
+        from cassandra.protocol import ResultMessage, RESULT_KIND_ROWS, ReadTimeoutErrorMessage
+        key = self.key_for(carried)
         m = ResultMessage(RESULT_KIND_ROWS)
         m.column_names = ['v']
         m.column_types = [None]
-        if k is None:
+        group = self.groups.get(key)
+        if key == 'bogus' or not group:
             self.bogus.append(carried)
             m.parsed_rows = []
             m.paging_state = None
-        else:
-            m.parsed_rows = [(r,) for r in self.pages[k]]
-            m.paging_state = self.state_bytes(k)
+            return m
+        n = self.seen.get(key, 0)
+        self.seen[key] = n + 1
+        item = group[min(n, len(group) - 1)]
+        if item == FAIL:
+            return ReadTimeoutErrorMessage(0x1200, 'scripted read timeout',
+                                           {'consistency': 1, 'required_responses': 2, 'received_responses': 1, 'data_retrieved': False})
+        m.parsed_rows = [(r,) for r in self.pages[item]]
+        m.paging_state = self.state_bytes(item)
         return m
 
     def on_send(self, message, cb):
         carried = message.paging_state
         self.sent.append(carried)
-        if len(self.sent) > 3 * len(self.pages) + 6:
+        if len(self.sent) > 3 * len(self.script) + 6:
             # a driver that keeps asking (e.g. for the same page) must not hang the check: refuse; the request then
             # fails with NoHostAvailable and the oracle reports the surplus requests
             raise RuntimeError('scripted server: too many requests')
@@ -154,14 +190,20 @@ def execute(pages, eager, state_of=None):
     cl = import_cluster()
     from cassandra.protocol import QueryMessage
     from cassandra.query import SimpleStatement
+    from cassandra import ReadTimeout
     server = Server(pages, eager, state_of)
     session = FakeSession(server)
-    msg = QueryMessage('SELECT v FROM t', 1, fetch_size=2)
-    rf = cl.ResponseFuture(session, msg, SimpleStatement('SELECT v FROM t'), None)
-    rf._event = FakeEvent(server)
-    rf.send_request()
-    rs = rf.result()
-    return server, rf, rs
+    for _ in range(len(pages) + 1):
+        msg = QueryMessage('SELECT v FROM t', 1, fetch_size=2)
+        rf = cl.ResponseFuture(session, msg, SimpleStatement('SELECT v FROM t'), None)
+        rf._event = FakeEvent(server)
+        rf.send_request()
+        try:
+            rs = rf.result()
+        except ReadTimeout:
+            continue                 # the first request failed: the application calls execute() again
+        return server, rf, rs
+    raise RuntimeError('execute() keeps failing')
 
 
 def state_id(b):
@@ -192,6 +234,8 @@ EXC = [(StopIteration, 'VStop'), (TypeError, 'VTypeError'), (RuntimeError, 'VRun
 
 
 def classify(e):
+    if type(e).__name__ == 'ReadTimeout':
+        return ('exc', 'VError')
     for t, name in EXC:
         if isinstance(e, t):
             return ('exc', name)
@@ -266,10 +310,16 @@ def olist(o):
     return 'None' if o is None else '(Some %s)' % zlist(o)
 
 
-def g_server(pages):
-    s = 'Last %s' % zlist(pages[-1])
-    for k in range(len(pages) - 2, -1, -1):
-        s = 'More %s %d (%s)' % (zlist(pages[k]), k, s)
+def g_server(script):
+    assert script and script[-1] != FAIL
+    s = 'Last %s' % zlist(script[-1])
+    k = len(script_pages(script)) - 2
+    for item in reversed(script[:-1]):
+        if item == FAIL:
+            s = 'Fail (%s)' % s
+        else:
+            s = 'More %s %d (%s)' % (zlist(item), k, s)
+            k -= 1
     return '(%s)' % s
 
 
